@@ -228,6 +228,9 @@ func (g *gen) makeFunc(idx int) {
 func (g *gen) makeMain() {
 	b := &block{ind: 1}
 	sc := &scope{parent: g.globalScope()}
+	if g.r.Intn(3) == 0 {
+		g.recProbe(b)
+	}
 	g.stmts(b, sc, g.cfg.Stmts+g.r.Intn(g.cfg.Stmts+1), 3)
 	// final state of the globals
 	for _, v := range g.globals {
@@ -241,4 +244,57 @@ func (g *gen) makeMain() {
 		g.trace(b, "final "+v.name, &vv)
 	}
 	g.decls = append(g.decls, "func main() {\n"+b.String()+"\n}")
+}
+
+// recProbe declares a recursive function whose frame has a random number of
+// registers of every kind, with optional deferred calls, and calls it at the
+// start of main with every depth of a range, so that the frames end at every
+// offset around the sizes at which the register stacks of the VM grow.
+func (g *gen) recProbe(b *block) {
+	r := g.r
+	g.feat("rec-probe")
+	name := g.newID("rec")
+	cnt := g.newID("recN")
+	ni, ns, nf, ng := r.Intn(6), r.Intn(4), r.Intn(4), r.Intn(4)
+	var fb strings.Builder
+	fmt.Fprintf(&fb, "func %s(d int, s string, f float64) (int, string) {\n", name)
+	switch r.Intn(4) {
+	case 0:
+		fmt.Fprintf(&fb, "\tdefer func() { %s++ }()\n", cnt)
+		g.feat("rec-probe-defer")
+	case 1:
+		fmt.Fprintf(&fb, "\tdefer func(a, b int, t string) { %s += a + b + len(t) }(d, 1, s)\n", cnt)
+		fmt.Fprintf(&fb, "\tdefer func() {\n\t\tx, y, z := d, d+1, s+\"q\"\n\t\t%s += x + y + len(z)\n\t}()\n", cnt)
+		g.feat("rec-probe-defer")
+	}
+	fb.WriteString("\tif d == 0 {\n\t\treturn 0, s\n\t}\n")
+	sum := []string{"r"}
+	for i := 0; i < ni; i++ {
+		fmt.Fprintf(&fb, "\ti%d := d + %d\n", i, i+1)
+		sum = append(sum, fmt.Sprintf("i%d", i))
+	}
+	for i := 0; i < ns; i++ {
+		fmt.Fprintf(&fb, "\ts%d := s + %q\n", i, strings.Repeat("a", i+1))
+		sum = append(sum, fmt.Sprintf("len(s%d)", i))
+	}
+	for i := 0; i < nf; i++ {
+		fmt.Fprintf(&fb, "\tf%d := f + %d.25\n", i, i+1)
+		sum = append(sum, fmt.Sprintf("int(f%d*4)", i))
+	}
+	for i := 0; i < ng; i++ {
+		fmt.Fprintf(&fb, "\tg%d := []int{d, %d}\n", i, i+1)
+		sum = append(sum, fmt.Sprintf("g%d[0]+g%d[1]", i, i))
+	}
+	fb.WriteString("\tr, t := " + name + "(d-1, s, f)\n")
+	fmt.Fprintf(&fb, "\treturn %s, t\n}", strings.Join(sum, " + "))
+	g.decls = append(g.decls, "var "+cnt+" int", fb.String())
+	per := 3 + ni + ns + nf + ng
+	hi := 1200/per + 20
+	if hi > 300 {
+		hi = 300
+	}
+	acc := g.newID("acc")
+	b.add("%s := 0", acc)
+	b.add("for d := 1; d < %d; d++ {\n\tr, t := %s(d, \"ab\", 0.5)\n\t%s += r + len(t)\n}", hi, name, acc)
+	b.add("println(%q, %s, %s)", g.newID("t"), acc, cnt)
 }
